@@ -149,3 +149,247 @@ main_kernel(void)
     return 0;
 }
 #endif
+
+#if KERNEL == 4
+/* (C19) the integer-keyed AVL tree behind the pair store: NK inserts with free 64-bit keys */
+#ifndef NK
+#define NK 4
+#endif
+static int
+avl_height(const tsk_avl_node_int_t *n, int depth)
+{
+    int l, r;
+    if (n == NULL || depth > NK + 1) {
+        return 0;
+    }
+    l = avl_height(n->llink, depth + 1);
+    r = avl_height(n->rlink, depth + 1);
+    sym_assert(r - l == n->balance, "stored balance factor equals the height difference");
+    sym_assert(r - l >= -1 && r - l <= 1, "the tree is height balanced");
+    return 1 + (l > r ? l : r);
+}
+
+int
+main_kernel(void)
+{
+    tsk_avl_tree_int_t tree;
+    tsk_avl_node_int_t nodes[NK], *out[NK], *hit;
+    int64_t keys[NK];
+    int inserted[NK], j, k, ret, n = 0, dup;
+    char nm[16];
+
+    tsk_avl_tree_int_init(&tree);
+    for (j = 0; j < NK; j++) {
+        keys[j] = sym_i64(sym_nm(nm, "k", j));
+        memset(&nodes[j], 0, sizeof(nodes[j]));
+        nodes[j].key = keys[j];
+        nodes[j].value = &keys[j];
+        dup = 0;
+        for (k = 0; k < j; k++) {
+            dup |= inserted[k] && keys[k] == keys[j];
+        }
+#ifdef DISTINCT
+        sym_assume(!dup);
+#endif
+        ret = tsk_avl_tree_int_insert(&tree, &nodes[j]);
+        sym_assert((ret != 0) == (dup != 0), "insert reports a duplicate exactly when the key is already stored");
+        inserted[j] = ret == 0;
+        n += inserted[j];
+        if (dup) {
+            sym_reach("dup");
+        }
+        if (tree.height >= 3 && j == NK - 1) {
+            sym_reach("height3");
+        }
+    }
+    sym_assert((int) tree.size == n, "size counts the distinct keys");
+    for (j = 0; j < NK; j++) {
+        hit = tsk_avl_tree_int_search(&tree, keys[j]);
+        sym_assert(hit != NULL && hit->key == keys[j], "every inserted key is found");
+        if (inserted[j]) {
+            sym_assert(hit == &nodes[j], "search returns the node that was inserted for the key");
+        }
+    }
+#ifndef NOPROBE
+    {
+        int64_t probe = sym_i64("probe");
+        int present = 0;
+        for (j = 0; j < NK; j++) {
+            present |= keys[j] == probe;
+        }
+        hit = tsk_avl_tree_int_search(&tree, probe);
+        sym_assert((hit != NULL) == (present != 0), "a key is found exactly when it was inserted");
+    }
+#endif
+    ret = tsk_avl_tree_int_ordered_nodes(&tree, out);
+    sym_assert(ret == 0, "ordered_nodes succeeds");
+    for (j = 0; j + 1 < n; j++) {
+        sym_assert(out[j]->key < out[j + 1]->key, "in-order traversal is strictly increasing");
+    }
+    avl_height(tsk_avl_tree_int_get_root(&tree), 0);
+    if (n == NK) {
+        sym_reach("full");
+    }
+    SYM_END();
+    return 0;
+}
+#endif
+
+#if KERNEL == 5
+/* (C07) the sort comparators are consistent orders on their whole domain: antisymmetric, transitive, and zero only on
+ * equal keys.  Doubles are free binary64 values except NaN; a mutation time may be the UNKNOWN_TIME NaN, under the
+ * data-model rule that the mutations of one site are all known or all unknown. */
+#define SGN(x) (((x) > 0) - ((x) < 0))
+static double
+known_or_unknown(const char *name, int unknown)
+{
+    double x = sym_f64(name);
+    sym_assume(!(x != x));
+    return unknown ? TSK_UNKNOWN_TIME : x;
+}
+
+#define CHECK3(cmp, a, b, c, same_ab)                                                                                      \
+    do {                                                                                                                  \
+        int ab = cmp(&a, &b), ba = cmp(&b, &a), bc = cmp(&b, &c), ac = cmp(&a, &c);                                       \
+        sym_assert(SGN(ab) == -SGN(ba), #cmp " is antisymmetric");                                                       \
+        sym_assert(!(ab <= 0 && bc <= 0) || ac <= 0, #cmp " is transitive");                                             \
+        sym_assert(cmp(&a, &a) == 0, #cmp " is reflexive");                                                              \
+        sym_assert((ab == 0) == (same_ab), #cmp " returns 0 exactly on equal keys");                                     \
+    } while (0)
+
+int
+main_kernel(void)
+{
+    int which = sym_choice("which", 0, 5), j;
+    char nm[16];
+    if (which == 0) {
+        edge_sort_t e[3];
+        for (j = 0; j < 3; j++) {
+            memset(&e[j], 0, sizeof(e[j]));
+            e[j].time = known_or_unknown(sym_nm(nm, "t", j), 0);
+            e[j].left = known_or_unknown(sym_nm(nm, "l", j), 0);
+            e[j].parent = sym_i32(sym_nm(nm, "p", j));
+            e[j].child = sym_i32(sym_nm(nm, "c", j));
+        }
+        CHECK3(cmp_edge, e[0], e[1], e[2],
+            e[0].time == e[1].time && e[0].left == e[1].left && e[0].parent == e[1].parent && e[0].child == e[1].child);
+    } else if (which == 1) {
+        tsk_site_t s[3];
+        for (j = 0; j < 3; j++) {
+            memset(&s[j], 0, sizeof(s[j]));
+            s[j].position = known_or_unknown(sym_nm(nm, "x", j), 0);
+            s[j].id = sym_i32(sym_nm(nm, "id", j));
+        }
+        CHECK3(cmp_site, s[0], s[1], s[2], s[0].position == s[1].position && s[0].id == s[1].id);
+    } else if (which == 2) {
+        tsk_mutation_t m[3];
+        int unknown[2];
+        unknown[0] = sym_choice("unk0", 0, 1); /* all mutations of site A / of any other site */
+        unknown[1] = sym_choice("unk1", 0, 1);
+        for (j = 0; j < 3; j++) {
+            memset(&m[j], 0, sizeof(m[j]));
+            m[j].site = sym_i32(sym_nm(nm, "s", j));
+            m[j].id = sym_i32(sym_nm(nm, "id", j));
+        }
+        /* known/unknown is a function of the site: site of m[0] -> unknown[0]; other sites share unknown[1] unless equal */
+        for (j = 0; j < 3; j++) {
+#ifdef MIXED_TIMES /* sensitivity self-test: without the data-model rule the order is not transitive */
+            {
+                char nm2[16];
+                int u = sym_choice(sym_nm(nm2, "u", j), 0, 1);
+                m[j].time = known_or_unknown(sym_nm(nm, "t", j), u);
+            }
+#else
+            m[j].time = known_or_unknown(sym_nm(nm, "t", j), m[j].site == m[0].site ? unknown[0] : (m[j].site == m[1].site ? unknown[1] : 0));
+#endif
+        }
+        CHECK3(cmp_mutation, m[0], m[1], m[2],
+            m[0].site == m[1].site && m[0].id == m[1].id && (tsk_is_unknown_time(m[0].time) || m[0].time == m[1].time));
+    } else if (which == 3) {
+        mutation_canonical_sort_t m[3];
+        int unknown[2];
+        unknown[0] = sym_choice("unk0", 0, 1);
+        unknown[1] = sym_choice("unk1", 0, 1);
+        for (j = 0; j < 3; j++) {
+            memset(&m[j], 0, sizeof(m[j]));
+            m[j].mut.site = sym_i32(sym_nm(nm, "s", j));
+            m[j].mut.id = sym_i32(sym_nm(nm, "id", j));
+            m[j].mut.node = sym_i32(sym_nm(nm, "n", j));
+            m[j].num_descendants = sym_i32(sym_nm(nm, "d", j));
+        }
+        for (j = 0; j < 3; j++) {
+            m[j].mut.time = known_or_unknown(sym_nm(nm, "t", j),
+                m[j].mut.site == m[0].mut.site ? unknown[0] : (m[j].mut.site == m[1].mut.site ? unknown[1] : 0));
+        }
+        CHECK3(cmp_mutation_canonical, m[0], m[1], m[2],
+            m[0].mut.site == m[1].mut.site && m[0].mut.id == m[1].mut.id && m[0].mut.node == m[1].mut.node
+                && m[0].num_descendants == m[1].num_descendants
+                && (tsk_is_unknown_time(m[0].mut.time) || m[0].mut.time == m[1].mut.time));
+    } else if (which == 4) {
+        migration_sort_t g[3];
+        for (j = 0; j < 3; j++) {
+            memset(&g[j], 0, sizeof(g[j]));
+            g[j].time = known_or_unknown(sym_nm(nm, "t", j), 0);
+            g[j].left = known_or_unknown(sym_nm(nm, "l", j), 0);
+            g[j].source = sym_i32(sym_nm(nm, "s", j));
+            g[j].dest = sym_i32(sym_nm(nm, "d", j));
+            g[j].node = sym_i32(sym_nm(nm, "n", j));
+        }
+        CHECK3(cmp_migration, g[0], g[1], g[2],
+            g[0].time == g[1].time && g[0].left == g[1].left && g[0].source == g[1].source && g[0].dest == g[1].dest
+                && g[0].node == g[1].node);
+    } else {
+        individual_canonical_sort_t v[3];
+        for (j = 0; j < 3; j++) {
+            memset(&v[j], 0, sizeof(v[j]));
+            v[j].ind.id = sym_i32(sym_nm(nm, "id", j));
+            v[j].first_node = sym_i32(sym_nm(nm, "f", j));
+            v[j].num_descendants = sym_i32(sym_nm(nm, "d", j));
+        }
+        CHECK3(cmp_individual_canonical, v[0], v[1], v[2],
+            v[0].ind.id == v[1].ind.id && v[0].first_node == v[1].first_node && v[0].num_descendants == v[1].num_descendants);
+    }
+    SYM_END();
+    return 0;
+}
+#endif
+
+#if KERNEL == 6
+/* (C06) tsk_search_sorted on a strictly increasing array (tree breakpoints): the result is the number of elements
+ * below the value, i.e. seek's tree index is the tree whose interval contains x */
+#ifndef NA
+#define NA 5
+#endif
+int
+main_kernel(void)
+{
+    double arr[NA], x = sym_f64("x");
+    int n = sym_choice("n", 1, NA), j, below = 0;
+    tsk_size_t r;
+    char nm[16];
+    sym_assume(!(x != x));
+    for (j = 0; j < n; j++) {
+        arr[j] = sym_f64(sym_nm(nm, "a", j));
+        sym_assume(!(arr[j] != arr[j]));
+        if (j > 0) {
+            sym_assume(arr[j - 1] < arr[j]);
+        }
+    }
+    r = tsk_search_sorted(arr, (tsk_size_t) n, x);
+    for (j = 0; j < n; j++) {
+        below += arr[j] < x;
+    }
+    sym_assert(r == (tsk_size_t) below, "search_sorted returns the number of elements below the value");
+    if (r < (tsk_size_t) n) {
+        sym_assert(arr[r] >= x && (r == 0 || arr[r - 1] < x), "the result is the insertion point");
+        if (r + 1 < (tsk_size_t) n && arr[r] == x) {
+            sym_reach("exact");
+        }
+    } else {
+        sym_reach("past-end");
+    }
+    sym_assert(tsk_search_sorted(arr, 0, x) == 0, "an empty array gives 0");
+    SYM_END();
+    return 0;
+}
+#endif
